@@ -20,6 +20,12 @@ Model of the cross-chain consensus-queue message life-cycle (properties C06 and 
   x/skyway/keeper/msg_server.go               ConfirmBatch, confirmHandlerCommon
   x/skyway/keeper/batch.go                    UpdateBatchGasEstimate (re-issues the checkpoint, deletes confirms)
 
+The model follows /repo *after* the repairs 23185e9f (only the canonical 20-byte spelling of a key
+verifies), db2aad4e (an eth key confirms a batch once) and be3dcb4f (the per-sender relay filter also
+covers UploadUserSmartContract).  The three pre-repair behaviours stay available as `verifiesPreFix`,
+`confirmWith false` and `senderMsgPreFix` (parameters of `signWith` / `confirmWith` / `relayAux`); they are
+used only by the negation witnesses in Props/C06.lean and Props/C14.lean.
+
 Core Lean only.  Validators, senders, payloads are naturals.  `math.LegacyDec` is an `Int` scaled by
 10^18 with the library's exact rounding (banker's rounding in `Mul`/`Quo`, truncation toward zero in
 big-integer division).  External-chain *address strings* and *registered public-key byte strings*
@@ -402,13 +408,17 @@ def dupCheck : List Sig → Nat → Nat → Option SignRes
     else if s.val == val then some .dupVal
     else dupCheck rest key val
 
-/-- the queue's `VerifySignature`: recovered account equals `BytesToAddress(key)` -/
-def verifies (key by_ : Nat) (for_ cur : SignBytes) : Bool := by_ == canon key && for_ == cur
+/-- the queue's `VerifySignature`: only the canonical 20-byte spelling of the key bytes is accepted
+    (`key % 4 == 0`) and the recovered account equals `BytesToAddress(key)` -/
+def verifies (key by_ : Nat) (for_ cur : SignBytes) : Bool := key % 4 == 0 && by_ == canon key && for_ == cur
+
+/-- `VerifySignature` before 23185e9f: any spelling of the key bytes verified -/
+def verifiesPreFix (key by_ : Nat) (for_ cur : SignBytes) : Bool := by_ == canon key && for_ == cur
 
 def addSig (it : Item) (sg : Sig) : Item := { it with sigs := it.sigs ++ [sg] }
 
-/-- `AddMessageSignature` for one message -/
-def sign (s : State) (id val addr by_ : Nat) (for_ : SignBytes) : State × SignRes :=
+/-- `AddMessageSignature` for one message, with the queue's signature check `vf` -/
+def signWith (vf : Nat → Nat → SignBytes → SignBytes → Bool) (s : State) (id val addr by_ : Nat) (for_ : SignBytes) : State × SignRes :=
   match signingKey s.regs val addr with
   | none => (s, .noKey)
   | some key =>
@@ -418,9 +428,12 @@ def sign (s : State) (id val addr by_ : Nat) (for_ : SignBytes) : State × SignR
       match dupCheck it.sigs key val with
       | some r => (s, r)
       | none =>
-        if verifies key by_ for_ (bytesOf it) then
+        if vf key by_ for_ (bytesOf it) then
           ({ s with queue := setItem s.queue (addSig it ⟨val, addr, key, by_, for_⟩) }, .ok)
         else (s, .badSig)
+
+def sign (s : State) (id val addr by_ : Nat) (for_ : SignBytes) : State × SignRes :=
+  signWith verifies s id val addr by_ for_
 
 /-! ### gas estimates, election, fee attachment -/
 
@@ -505,27 +518,35 @@ def pendingValset (q : List Item) : Option Nat := (q.find? (fun it => it.kind ==
 def pass1 (pend : Option Nat) (it : Item) : Bool :=
   (match pend with | none => true | some p => it.id ≤ p) && (!it.pub && !it.err)
 
-/-- messages the per-sender filter tracks: SubmitLogicCall with a non-empty sender -/
-def senderMsg (it : Item) : Bool := it.kind == .slc && it.sender != 0
+/-- messages the per-sender filter tracks: the fee-paying actions (SubmitLogicCall,
+    UploadUserSmartContract) with a non-empty sender -/
+def senderMsg (it : Item) : Bool := it.kind.feePayer && it.sender != 0
+
+/-- the per-sender filter before be3dcb4f: SubmitLogicCall only -/
+def senderMsgPreFix (it : Item) : Bool := it.kind == .slc && it.sender != 0
 
 /-- `HasGasEstimate && IsAssignedTo` -/
 def pass2 (v : Nat) (it : Item) : Bool := (!it.reqEst || it.elected > 0) && it.assignee == v
 
-/-- the filter closure run over the queue in order, `lut` = senders already registered.  The sender
+/-- the filter closure run over the queue in order, `lut` = senders already registered, `sm` = which
+    messages the per-sender filter tracks.  The sender
     is registered as soon as the first two filters pass — before the estimate and assignee tests. -/
-def relayAux (pend : Option Nat) (v : Nat) : List Nat → List Item → List Nat
+def relayAux (sm : Item → Bool) (pend : Option Nat) (v : Nat) : List Nat → List Item → List Nat
   | _, [] => []
   | lut, it :: rest =>
     if pass1 pend it then
-      if senderMsg it then
-        if lut.contains it.sender then relayAux pend v lut rest
-        else if pass2 v it then it.id :: relayAux pend v (it.sender :: lut) rest
-        else relayAux pend v (it.sender :: lut) rest
-      else if pass2 v it then it.id :: relayAux pend v lut rest
-      else relayAux pend v lut rest
-    else relayAux pend v lut rest
+      if sm it then
+        if lut.contains it.sender then relayAux sm pend v lut rest
+        else if pass2 v it then it.id :: relayAux sm pend v (it.sender :: lut) rest
+        else relayAux sm pend v (it.sender :: lut) rest
+      else if pass2 v it then it.id :: relayAux sm pend v lut rest
+      else relayAux sm pend v lut rest
+    else relayAux sm pend v lut rest
 
-def offered (q : List Item) (v : Nat) : List Nat := relayAux (pendingValset q) v [] q
+/-- `GetMessagesForRelaying` with per-sender predicate `sm` -/
+def offeredWith (sm : Item → Bool) (q : List Item) (v : Nat) : List Nat := relayAux sm (pendingValset q) v [] q
+
+def offered (q : List Item) (v : Nat) : List Nat := offeredWith senderMsg q v
 
 /-! ### bridge batches -/
 
@@ -543,13 +564,13 @@ def ethAddrOf (regs : List (Nat × List Account)) (val : Nat) : Option Nat :=
   | some accts => (chainAccount accts).map (·.addr)
 
 inductive ConfRes where
-  | ok | notFound | noAddr | mismatch | badSig | dup
+  | ok | notFound | noAddr | mismatch | badSig | dup | dupKey
 deriving DecidableEq, Repr
 
 def addConfirm (b : Batch) (c : BConfirm) : Batch := { b with confirms := b.confirms ++ [c] }
 
-/-- `ConfirmBatch` -/
-def confirm (s : State) (nonce val addr by_ : Nat) (for_ : BBytes) : State × ConfRes :=
+/-- `ConfirmBatch`; `keyOnce = false` is the code before db2aad4e (no duplicate-key test) -/
+def confirmWith (keyOnce : Bool) (s : State) (nonce val addr by_ : Nat) (for_ : BBytes) : State × ConfRes :=
   match getBatch s.batches nonce with
   | none => (s, .notFound)
   | some b =>
@@ -559,7 +580,11 @@ def confirm (s : State) (nonce val addr by_ : Nat) (for_ : BBytes) : State × Co
       if canon a != canon addr then (s, .mismatch)
       else if !(by_ == canon a && for_ == bbytes b) then (s, .badSig)
       else if b.confirms.any (fun c => c.val == val) then (s, .dup)
+      else if keyOnce && b.confirms.any (fun c => canon c.addr == canon addr) then (s, .dupKey)
       else ({ s with batches := setBatch s.batches (addConfirm b ⟨val, addr, by_, for_⟩) }, .ok)
+
+def confirm (s : State) (nonce val addr by_ : Nat) (for_ : BBytes) : State × ConfRes :=
+  confirmWith true s nonce val addr by_ for_
 
 /-- `UpdateBatchGasEstimate` -/
 def updateBatchGas (s : State) (nonce g : Nat) : State × Bool :=
